@@ -81,6 +81,8 @@ pub fn split(raw: &str, fmt: Fmt) -> Option<Msg> {
             let discs: Vec<String> = v.get("disclosures")?.as_arr()?.iter().map(|d| d.as_str().map(String::from)).collect::<Option<Vec<_>>>()?;
             let kb = match v.get("kb_jwt") {
                 None | Some(J::Null) => None,
+                // an empty string is how "no key binding" looks when a compact jwt~..~ is carried over member by member
+                Some(J::Str(s)) if s.is_empty() => None,
                 Some(J::Str(s)) => Some(s.clone()),
                 Some(_) => return None,
             };
@@ -100,6 +102,7 @@ pub fn split(raw: &str, fmt: Fmt) -> Option<Msg> {
 pub enum JsonVariant {
     KbAbsent,
     KbNull,
+    KbEmpty,
     Extra,
 }
 
@@ -130,6 +133,7 @@ pub fn render(m: &Msg, fmt: Fmt, var: JsonVariant) -> String {
             match (&m.kb, var) {
                 (Some(kb), _) => pairs.push(("kb_jwt", qs(kb))),
                 (None, JsonVariant::KbNull) => pairs.push(("kb_jwt", "null".to_string())),
+                (None, JsonVariant::KbEmpty) => pairs.push(("kb_jwt", "\"\"".to_string())),
                 _ => {}
             }
             if var == JsonVariant::Extra {
